@@ -134,7 +134,7 @@ func provEq(A *Aff, b *ssa.BasicBlock, x, y *Lin) bool {
 }
 
 func checkC04(c *Ctx) {
-	c.Explanation = "Decides that the MSM4/MSM7 decoders read the standard's layout into the right fields: (R1) the bit reads of the header reader (type at bit 24, then 11 fixed fields and the Nsat*Nsig cell mask), of the two satellite-cell readers and of the two signal-cell readers are, in control-flow order, exactly the oracle's fields — width, signedness, one contiguous field array per field repeated Nsat (satellites) resp. NumSignalCells (signals) times, starting where the previous section ended (header end; satellites start + Nsat*cell length); (R2) each read value reaches the like-named struct field through the constructor; (R3) mask expansion: satellite mask 64 bits and signal mask 32 bits scanned from the most significant bit with ids 1..64 / 1..32, cell mask of Nsat*Nsig bits row-major (satellite-major), rejected above 64 bits; (R4) attachment: every signal cell is built from Signals[j], &satCells[i] and the c-th entry of every field array, c advancing exactly once per constructed cell and only for cells whose mask bit is set, appended to signalCells[i]; (R5) padding non-interference: the frame length influences nothing but error exits; (R6) rejection sites are exactly the allowed reasons; (R7) each family decodes exactly its own message types."
+	c.Explanation = "Decides that the MSM4/MSM7 decoders read the standard's layout into the right fields: (R1) the bit reads of the header reader (type at bit 24, then 11 fixed fields and the Nsat*Nsig cell mask), of the two satellite-cell readers and of the two signal-cell readers are, in control-flow order, exactly the oracle's fields — width, signedness, one contiguous field array per field repeated Nsat (satellites) resp. NumSignalCells (signals) times, starting where the previous section ended (header end; satellites start + Nsat*cell length); (R2) each read value reaches the like-named struct field through the constructor; (R3) mask expansion: satellite mask 64 bits and signal mask 32 bits scanned from the most significant bit with ids 1..64 / 1..32, cell mask of Nsat*Nsig bits row-major (satellite-major), rejected above 64 bits; (R4) attachment: every signal cell is built from Signals[j], &satCells[i] and the c-th entry of every field array, c advancing exactly once per constructed cell and only for cells whose mask bit is set, appended to signalCells[i]; (R5) padding non-interference: the frame length influences nothing but error exits; (R6) rejection sites are exactly the allowed reasons; (R7) each family decodes exactly its own message types. Later additions: every successful return of the family decoders hands back New(header, satellites, signals) built from the three readers; successful returns of the cell readers follow their complete loops; the signal-overrun exit compares the cell count with a capacity computed from the frame length alone."
 	c.NotDecided = "the bit reader's arithmetic (C14); the numerical result of the mask-to-list loops beyond their structure; that a cell mask with fewer set bits than cells in the data is well formed (the standard says the mask describes the message)."
 	P := c.P
 	or, err := loadLayoutOracle(c.Verifdir)
@@ -787,6 +787,34 @@ func checkSectionStarts(c *Ctx, rule, fam string, A *Aff, msg, getHdr, sat, sig 
 		okSig = provEq(A, sigCall.Block(), A.Lin(sigCall.Call.Args[1]), want)
 	}
 	c.Check(okSig, rule, fam+":signals-start", sigCall.Pos(), fmt.Sprintf("signal cells start at header end + %d * Nsat", satBits), "the signal reader is not given the position header end + Nsat * satellite cell length")
+	// every successful return hands back New(header, satellite cells, signal cells, ...) built from the
+	// results of those three calls (a shortcut that skips a reader loses its section)
+	var sigsV ssa.Value
+	for _, r := range referrers(sigCall) {
+		if ex, ok := r.(*ssa.Extract); ok && ex.Index == 0 {
+			sigsV = ex
+		}
+	}
+	assembled, n := true, 0
+	for _, r := range returnsOf(msg) {
+		if len(r.Results) != 2 || !isNilConst(r.Results[1]) {
+			continue
+		}
+		n++
+		okR := false
+		if call, ok := r.Results[0].(*ssa.Call); ok {
+			if f := call.Call.StaticCallee(); f != nil && f.Name() == "New" && f.Pkg == msg.Pkg && len(call.Call.Args) >= 3 {
+				okR = call.Call.Args[0] == hdrV && call.Call.Args[1] == satsV && call.Call.Args[2] == sigsV && hdrV != nil && satsV != nil && sigsV != nil
+			}
+		}
+		if !okR {
+			assembled = false
+			c.Fail(rule, fam+":assembled", r.Pos(), "refuted", "a successful return of GetMessage does not hand back New(header, satellite cells, signal cells) from the three readers: a section of the message is missing from the result")
+		}
+	}
+	if assembled && n > 0 {
+		c.OK(rule, fam+":assembled", msg.Pos(), "every successful return is New(header, satellites, signals) from the three readers")
+	}
 }
 
 // checkMSMRejections (C04-R6): every error exit of the MSM decode path is one of the allowed reasons.
